@@ -289,7 +289,7 @@ def judge(case, ctx):
         missing, include, exclude = case['missing'], case['include'], case['exclude']
         ckw = dict(kw)
         if missing is not None:
-            ckw['missing'] = missing
+            ckw['missing'] = util.fresh(missing)     # equal to the cells, not the same object
         if include is not None:
             ckw['include'] = include
         if exclude is not None:
